@@ -13,6 +13,8 @@ static std::string wild_comment(Src &s, const GFile &f0, bool allow_indent, bool
   GFile f = f0;
   if (f.C.empty()) f.C = "#";
   std::string ind = allow_indent && s.chance(40) ? gen_blanks(s, 1, 3) : "";
+  // (white space in front of the comment character is not only blank and tab)
+  if (!ind.empty() && s.chance(15)) ind[s.below((uint32_t)ind.size())] = "\f\v\r"[s.below(3)];
   indented = !ind.empty();
   char c = f.C[s.below((uint32_t)f.C.size())];
   int n = (int)s.below(14);
